@@ -20,7 +20,7 @@
    This file contains nothing but the property theorems, each closed by [exact <lemma>]. *)
 From Coq Require Import ZArith List Bool.
 From Tickit Require Import RectDefs RBDefs RBSpec RBAbsLemmas RBInv RBProofs Gen_Linechars RBGlyphs RBGlyphProofs
-                           RBFlushDefs RBFlushSpec RBFlushProofs RBProps RBWidth RBFlushCols RBFlushReach RBTermSim RBFlushShown RBFlushGrid.
+                           RBFlushDefs RBFlushSpec RBFlushProofs RBProps RBWidth RBFlushCols RBFlushReach RBTermSim RBFlushShown RBFlushGrid RBFlushFull.
 Import ListNotations.
 Local Open Scope Z_scope.
 
@@ -128,8 +128,8 @@ Print Assumptions C04_print_layout.
      - under a Text cell it carries the text's pen, and, if the text consists of width-one
        characters, shows the text's own character for that column.
    (What a Text cell of a string with double-width or zero-width characters shows is determined
-   exactly by C04_flush_shown below, in terms of the span; its agreement with the oracle's
-   expect_cell is the part left to testing.) *)
+   exactly by C04_flush_shown below, in terms of the span, and shown to be what the
+   specification's expect_cell accepts in C04_flush_full.) *)
 Theorem C04_flush_grid_all : forall s t0 ops s',
   Inv s -> acells_ok (abs_rb s) ->
   term_ok t0 -> rb_lines s <= t_lines t0 -> rb_cols s <= t_cols t0 ->
@@ -215,26 +215,52 @@ Theorem C04_flush_overlay : forall s t0 ops s',
 Proof. exact flush_overlay. Qed.
 Print Assumptions C04_flush_overlay.
 
-(* NOT PROVED: that what C04_flush_shown determines for the cells of a text with double-width
-   or zero-width characters is what the oracle's expect_cell accepts (each whole grapheme in the
-   cell of its first column, an empty continuation cell in the second; a half-visible grapheme
-   free in content).  Full statement:
+(* A text cell against the specification's grapheme arithmetic, for any mix of widths: with a =
+   the start of the grapheme covering the cell's string column, b = its end, w = its width, the
+   cell shows the whole grapheme if w = 1; for a double-width grapheme its first column shows the
+   grapheme or a blank, its second column nothing or a blank (a blank exactly when the other half
+   lies outside the span). *)
+Theorem C04_text_cell : forall p s offs n d j,
+  text_valid s = true -> 0 <= offs -> 1 <= n -> offs + n <= text_width s -> 0 <= j < n ->
+  let col := offs + j in
+  let T := t_text (nth (Z.to_nat j) (span_out (CText p s offs) n) d) in
+  let a := slice_start s col in
+  let b := count_on s a (sp_gr a + 1) (-1) in
+  let c0 := sp_col a in
+  let w := sp_col b - c0 in
+  c0 <= col < c0 + w /\
+  (w = 1 -> T = slice s a b) /\
+  (w <> 1 -> col = c0 -> T = slice s a b \/ T = [32]) /\
+  (w <> 1 -> col <> c0 -> T = [] \/ T = [32]).
+Proof. exact text_cell_ok. Qed.
+Print Assumptions C04_text_cell.
 
-   C04_flush_full : forall s t0 ops s',
-     Inv s -> acells_ok (abs_rb s) ->
-     term_ok t0 -> rb_lines s <= t_lines t0 -> rb_cols s <= t_cols t0 ->
-     flush s = Ok (ops, s') ->
-     exists t1, t_run t0 ops = Ok t1 /\
-       grid_meets (ag (abs_rb s)) (tg t0) (tg t1) = true.
+(* THE PROPERTY IN FULL: flushing any buffer onto any terminal at least as large -- whatever the
+   terminal's content, cursor and pen, whether or not its erasech(MAYBE) moves the cursor, and
+   whatever mix of zero-width, single-width and double-width characters the texts have -- the
+   terminal executes the emitted operations without fault and the grid it ends with meets the
+   specification's cell-wise expectation (grid_meets, RBFlushSpec.v: Skip cells and everything
+   outside the buffer untouched; Erase a blank, Line the table's glyph, Char the code point, Text
+   the grapheme covering the column -- each in its own cell, in its own pen).  grid_meets is
+   clause 2 of the oracle's flush_checkb, evaluated there on the grid the C implementation left. *)
+Theorem C04_flush_full : forall s t0 ops s',
+  Inv s -> acells_ok (abs_rb s) ->
+  term_ok t0 -> rb_lines s <= t_lines t0 -> rb_cols s <= t_cols t0 ->
+  flush s = Ok (ops, s') ->
+  exists t1, t_run t0 ops = Ok t1 /\ grid_meets (ag (abs_rb s)) (tg t0) (tg t1) = true.
+Proof. exact flush_full. Qed.
+Print Assumptions C04_flush_full.
 
-   Proved of it: everything but the Text case of expect_cell for strings that are not narrow --
-   t_run succeeds, Skip / outside untouched, Erase / Line / Char exact, pens everywhere, narrow
-   texts exact (C04_flush_grid_all); the cells of other texts are determined (C04_flush_shown,
-   C04_print_layout).  Missing: the agreement of [lay (slice s st en)] with expect_cell's
-   grapheme arithmetic (slice_start / count_on with a grapheme limit, the `whole' test over
-   neighbouring cells).  Carried by the correspondence check as testing (exact grid of the C
-   against the model, and grid_meets on the C's own grid, over width-mix texts cut at every
-   column). *)
+(* ... for every buffer a drawing program reaches (line styles 1..3), against the specification's
+   grid of C03: drawing, then flushing, shows on the terminal what the specification says was
+   drawn. *)
+Theorem C04_flush_full_reachable : forall L C prog s v t0,
+  0 <= L -> 0 <= C -> Forall op_ok prog -> run (rb_new L C) prog = Ok (s, v) ->
+  term_ok t0 -> L <= t_lines t0 -> C <= t_cols t0 ->
+  exists ops t1, flush s = Ok (ops, reset s) /\ t_run t0 ops = Ok t1 /\
+    grid_meets (ag (fst (arun (a_new L C) prog))) (tg t0) (tg t1) = true.
+Proof. exact flush_full_reachable. Qed.
+Print Assumptions C04_flush_full_reachable.
 
 Example C04_nonvacuous :
   exists s v ops, run (rb_new 1 6) [OTextAt 0 0 [0xff21; 98; 99]; OCharAt 0 0 120; OHLine 0 4 5 2 3] = Ok (s, v) /\
